@@ -85,7 +85,9 @@ fn main() {
             let parts: usize = arg_val(&args, "--parts").and_then(|s| s.parse().ok()).unwrap_or(1);
             util::set_partition(part, parts);
             let ctx = Ctx { tier, seed, threads, stage: stage.clone(), scale_pct };
-            if let Err(e) = model::tables::self_check() {
+            if stage == "miri" {
+                // the structural table check is done by the native stages; skip it in the interpreter
+            } else if let Err(e) = model::tables::self_check() {
                 eprintln!("model table self-check failed: {}", e);
                 std::process::exit(3);
             }
